@@ -1359,10 +1359,23 @@ class _TreeItems:
         itertype = self.itertype
         iterargs = self.iterargs
         done = 0
+        defaults = (_marker, _marker, False, False)
+        min, max, excludemin, excludemax = (
+            tuple(iterargs) + defaults[len(iterargs):])
+        # An exclusive *unbounded* end excludes only the overall smallest
+        # (largest) key: the first key of the first bucket (the last key
+        # of the last bucket), not the first (last) key of every bucket.
+        unbounded_min = min is _marker or min is None
+        unbounded_max = max is _marker or max is None
+        first = True
         # Note that we don't mind if the first bucket yields no
         # results due to an idiosyncrasy in how range searches are done.
         while bucket is not None:
-            for k in getattr(bucket, itertype)(*iterargs):
+            exmin = excludemin and (first or not unbounded_min)
+            exmax = excludemax and (
+                bucket._next is None or not unbounded_max)
+            first = False
+            for k in getattr(bucket, itertype)(min, max, exmin, exmax):
                 yield k
                 done = 0
             if done:
